@@ -240,7 +240,11 @@ class C02(Prop):
     def shrink_candidates(self, case):
         evs = case["events"]
         for i in range(len(evs)):
-            yield dict(case, events=evs[:i] + evs[i + 1:])
+            if evs[i][0] != "exit":
+                yield dict(case, events=evs[:i] + evs[i + 1:])
+        for i in range(len(evs)):
+            if evs[i][0] == "exit" and i:       # exit first
+                yield dict(case, events=[evs[i]] + evs[:i] + evs[i + 1:])
         for i, ev in enumerate(evs):
             if ev[0] in ("out", "err") and len(ev[1]) > 1:
                 for j in range(len(ev[1])):
@@ -346,8 +350,6 @@ def payload(kind, n, tag):
 def real_child_case(c):
     out, enc = payload(c["kind"], c["n_out"], "o")
     err, _ = payload(c["kind"], c["n_err"], "e")
-    prog = ("import sys,os\n"
-            "o=sys.stdin.buffer.read(%d); e=sys.stdin.buffer.read(%d)\n" % (len(out), len(err)))
     # payload is shipped to the child in a file so the command line stays small
     import tempfile
     fd, path = tempfile.mkstemp(prefix="c02-", dir=os.path.join(core.BUILD))
